@@ -202,7 +202,7 @@ def arranged_world(rng, d):
         if not isinstance(s0, dict):
             continue
         arr = R.arrange(rng, d, s0)
-        if arr is None:
+        if arr is None or not R.arrangement_ok(arr):
             continue
         ig = InstGen(rng, s0)
         refs = ["#"]
